@@ -1,0 +1,240 @@
+//go:build verif
+
+package engine
+
+//@ -- the atom current_op/3 shows for a specifier (ISO 8.14.4: fx fy xf yf xfx xfy yfx)
+//@ spec fun specAtom(s operatorSpecifier) Atom = ite(s == 1, atomFX, ite(s == 2, atomFY, ite(s == 5, atomXF, ite(s == 6, atomYF, ite(s == 9, atomXFX, ite(s == 10, atomXFY, atomYFX))))))
+
+//@ -- the arguments current_op/3 accepts (ISO 8.14.4.3): a priority that is unbound or an integer in 0..1200, a specifier that
+//@ -- is unbound or one of the seven specifier atoms, a name that is unbound or an atom
+//@ spec fun isSpecAtom(a Atom) bool = a == atomXF || a == atomYF || a == atomXFX || a == atomXFY || a == atomYFX || a == atomFX || a == atomFY
+//@ spec fun okPriority(t Term) bool = t is Variable || (t is Integer && 0 <= (t as Integer) && (t as Integer) <= 1200)
+//@ spec fun okSpecifier(t Term) bool = t is Variable || (t is Atom && isSpecAtom(t as Atom))
+//@ spec fun okName(t Term) bool = t is Variable || t is Atom
+
+//@ func CurrentOp
+//@   property C18
+//@   requires vm != nil
+//@   nosafety
+//@   modifies nothing
+//@   frozen vm, k, env
+//@   let rp = resolve(env, priority)
+//@   let rs = resolve(env, specifier)
+//@   let ro = resolve(env, op)
+//@   bind d = Delay#1
+//@   bind ep1 = domainError#1
+//@   bind ep2 = domainError#2
+//@   bind es1 = domainError#3
+//@   bind es2 = domainError#4
+//@   bind en = typeError#1
+//@   -- which calls are answered, which raise
+//@   ensures[acceptable-arguments-are-answered-by-the-enumeration] okPriority(rp) && okSpecifier(rs) && okName(ro) ==> called(d) && result == d
+//@   at-call Delay requires[only-acceptable-arguments-are-answered] okPriority(rp) && okSpecifier(rs) && okName(ro)
+//@   ensures[an-unacceptable-argument-raises-an-error] !(okPriority(rp) && okSpecifier(rs) && okName(ro)) ==> result != nil && result.err != nil && len(result.delayed) == 0
+//@   ensures[the-error-raised-is-the-error-term-built] (called(ep1) ==> result.err is Exception && (result.err as Exception) == ep1) &&
+//@       (called(ep2) ==> result.err is Exception && (result.err as Exception) == ep2) &&
+//@       (called(es1) ==> result.err is Exception && (result.err as Exception) == es1) &&
+//@       (called(es2) ==> result.err is Exception && (result.err as Exception) == es2) &&
+//@       (called(en) ==> result.err is Exception && (result.err as Exception) == en)
+//@   at-call domainError requires[a-domain-error-names-the-priority-or-the-specifier] a0 == validDomainOperatorPriority || a0 == validDomainOperatorSpecifier
+//@   at-call domainError requires[operator-priority-domain-error-only-for-an-unacceptable-priority-which-is-the-culprit] a0 == validDomainOperatorPriority ==>
+//@       !okPriority(rp) && (a1 == priority || a1 == rp) && a2 == env
+//@   at-call domainError requires[operator-specifier-domain-error-only-for-an-unacceptable-specifier-which-is-the-culprit] a0 == validDomainOperatorSpecifier ==>
+//@       !okSpecifier(rs) && (a1 == specifier || a1 == rs) && a2 == env
+//@   at-call typeError requires[type-error-atom-only-for-a-name-that-is-neither-unbound-nor-an-atom-which-is-the-culprit] a0 == validTypeAtom && !okName(ro) && (a1 == op || a1 == ro) && a2 == env
+//@   -- the enumeration: every slot of every row the table yields is looked at; a defined one becomes an alternative, an empty one does not
+//@   -- (the same fact as [only-acceptable-arguments-are-answered], stated where the answer begins to be built: a failing case is
+//@   -- reported with a counterexample here, whereas after the `make` of the alternatives the solvers only answer `unknown`)
+//@   at-call tuple requires[only-acceptable-arguments-get-as-far-as-the-enumeration] okPriority(rp) && okSpecifier(rs) && okName(ro)
+//@   at-call tuple requires[the-pattern-is-the-caller-s-three-arguments-in-order] len(a0) == 3 && a0[0] == priority && a0[1] == specifier && a0[2] == op
+//@   -- current_op/3 defines and removes nothing. `modifies nothing` says so too, but the engine ASSUMES a function's frame condition at
+//@   -- every loop header without checking it where the loop is entered, so a write made before the first loop would pass; the explicit
+//@   -- invariant is checked on entry
+//@   loop 1 invariant[the-table-is-as-it-was-when-current-op-was-called] vm.operators == old(vm.operators) &&
+//@       forall n Atom :: vm.operators[n] == old(vm.operators[n]) && has(vm.operators, n) == old(has(vm.operators, n))
+//@   loop 2 invariant[the-table-is-as-it-was-when-current-op-was-called] vm.operators == old(vm.operators) &&
+//@       forall n Atom :: vm.operators[n] == old(vm.operators[n]) && has(vm.operators, n) == old(has(vm.operators, n))
+//@   ensures[current-op-defines-and-removes-nothing] vm.operators == old(vm.operators) &&
+//@       forall n Atom :: vm.operators[n] == old(vm.operators[n]) && has(vm.operators, n) == old(has(vm.operators, n))
+//@   loop 1 invariant[the-alternatives-live-in-an-array-of-this-call] backing(ks) == nil || fresh(backing(ks))
+//@   loop 2 invariant[the-alternatives-live-in-an-array-of-this-call] backing(ks) == nil || fresh(backing(ks))
+//@   loop 2 invariant[index-range] -1 <= $i && $i < 3
+//@   bind app = append#1
+//@   loop 2 maintains[a-defined-slot-becomes-an-alternative-an-empty-slot-does-not] called(app) == !emptyOp(ops[$i + 1])
+//@   at-call append requires[one-alternative-per-defined-slot] len(a1) == 1
+//@   at-call Delay requires[every-collected-alternative-is-offered] a0 == ks
+
+//@ func CurrentOp$1
+//@   property C18
+//@   nosafety
+//@   requires vm != nil
+//@   requires[only-a-defined-operator-becomes-an-alternative] !emptyOp(op)
+//@   -- (a range over a nil map yields nothing; the encoding of `range` does not say so, hence the guard)
+//@   requires[the-alternative-is-an-entry-of-the-vm-s-own-table] vm.operators != nil ==>
+//@       exists n Atom, c operatorClass :: has(vm.operators, n) && vm.operators[n][c] == op
+//@   at-call Unify requires[the-caller-s-pattern-is-unified-with-a-triple] a1 == pattern && a2 is *compound && (a2 as *compound).functor == 0 && len((a2 as *compound).args) == 3
+//@   at-call Unify requires[the-triple-is-priority-specifier-name-of-the-entry-in-this-order]
+//@       (a2 as *compound).args[0] is Integer && ((a2 as *compound).args[0] as Integer) == op.priority &&
+//@       (a2 as *compound).args[1] is Atom && ((a2 as *compound).args[1] as Atom) == specAtom(op.specifier) &&
+//@       (a2 as *compound).args[2] is Atom && ((a2 as *compound).args[2] as Atom) == op.name
+//@   at-call Unify requires[the-answer-goes-to-the-caller-s-continuation-under-the-caller-s-bindings] a0 == vm && a3 == k && a4 == env
+
+//@ ---------------------------------------------------------------- the reader uses the VM's own table (C18)
+
+//@ -- a parser is wired to the table of the VM it is made for: the same map, so that what op/3 defines later (a directive in the
+//@ -- text being loaded) is seen by the parser that is reading that text; making a parser defines and removes nothing
+//@ func NewParser
+//@   property C18 C15 C19
+//@   ensures[reads-under-the-current-double-quotes-flag] result.doubleQuotes == old(vm.doubleQuotes)
+//@   ensures[starts-without-a-placeholder-or-arguments] result.placeholder == 0 && len(result.args) == 0 && len(result.Vars) == 0
+//@   ensures[the-operator-table-is-only-created-when-missing] old(vm.operators) != nil ==> vm.operators == old(vm.operators)
+//@   requires vm != nil
+//@   modifies vm.operators
+//@   ensures[a-new-parser] result != nil && fresh(result)
+//@   ensures[the-parser-reads-with-the-vm-s-own-table] result.operators == vm.operators && vm.operators != nil
+//@   ensures[an-existing-table-is-kept] old(vm.operators) != nil ==> vm.operators == old(vm.operators)
+//@   ensures[a-missing-table-is-created-empty] old(vm.operators) == nil ==> fresh(vm.operators)
+//@   ensures[no-operator-is-defined-or-removed] forall n Atom :: vm.operators[n] == old(vm.operators[n]) && has(vm.operators, n) == old(has(vm.operators, n))
+//@   ensures[the-double-quotes-flag-of-the-vm] result.doubleQuotes == vm.doubleQuotes
+//@   ensures[reads-from-the-reader-given] result.lexer.input.base == r
+//@   ensures[no-variables-no-placeholder-yet] len(result.Vars) == 0 && result.placeholder == 0 && len(result.args) == 0
+
+//@ -- named so that its result can be bound in prefix and infix; nothing is claimed about it (any result, any effect)
+//@ func (*Parser).op
+//@   property C18
+//@   requires p != nil
+//@   nosafety
+//@   modifies heap
+
+//@ -- what makes a token a prefix operator is the entry the parser's table holds for it in the prefix class, and nothing else
+//@ func (*Parser).prefix
+//@   property C18
+//@   requires p != nil
+//@   nosafety
+//@   modifies heap
+//@   bind a, aerr = (*Parser).op#1
+//@   at-call (*Parser).op requires[the-candidate-token-is-read-by-this-parser-within-the-priority-asked-for] a0 == p && a1 == maxPriority
+//@   ensures[a-prefix-operator-is-the-defined-entry-of-the-parser-s-table-for-the-token-in-the-prefix-class] result1 == nil ==>
+//@       called(a) && aerr == nil && result0 == p.operators[a][operatorClassPrefix] && !emptyOp(result0) && result0.priority <= maxPriority
+//@   -- (the same without names internal to prefix, for callers)
+//@   ensures[a-prefix-operator-delivered-is-an-entry-of-the-prefix-class-of-the-parser-s-table-within-the-priority-asked-for] result1 == nil ==>
+//@       !emptyOp(result0) && result0.priority <= maxPriority && exists n Atom :: result0 == p.operators[n][operatorClassPrefix]
+//@   ensures[no-operator-comes-with-an-error] result1 != nil ==> emptyOp(result0)
+//@   at-call (*Parser).backup#7 requires[the-token-is-given-up-only-when-the-table-holds-no-prefix-operator-for-it-within-the-priority] called(a) && aerr == nil &&
+//@       (emptyOp(p.operators[a][operatorClassPrefix]) || p.operators[a][operatorClassPrefix].priority > maxPriority)
+
+//@ -- what makes a token an infix or a postfix operator is the entry the parser's table holds for it in that class; it is taken when
+//@ -- its left priority (ISO table of specifiers: bindingPriorities) is within the priority asked for
+//@ func (*Parser).infix
+//@   property C18
+//@   requires p != nil
+//@   nosafety
+//@   modifies heap
+//@   -- (bindingPriorities requires a priority in 1..1200; that every defined entry of a table has one is Op's [defined-priority-is-in-range],
+//@   -- not an invariant the parser can rely on here, so the precondition of that call is not an obligation of infix)
+//@   checks only post at-call at-call-missing
+//@   bind a, aerr = (*Parser).op#1
+//@   bind il, ir = (*operator).bindingPriorities#1
+//@   bind pl, pr = (*operator).bindingPriorities#2
+//@   at-call (*Parser).op requires[the-candidate-token-is-read-by-this-parser-within-the-priority-asked-for] a0 == p && a1 == maxPriority
+//@   at-call (*operator).bindingPriorities#1 requires[the-priorities-of-the-table-s-infix-entry-for-the-token] called(a) && aerr == nil &&
+//@       *a0 == p.operators[a][operatorClassInfix] && !emptyOp(*a0)
+//@   at-call (*operator).bindingPriorities#2 requires[the-priorities-of-the-table-s-postfix-entry-for-the-token] called(a) && aerr == nil &&
+//@       *a0 == p.operators[a][operatorClassPostfix] && !emptyOp(*a0)
+//@   ensures[an-operator-is-the-defined-infix-or-postfix-entry-of-the-parser-s-table-for-the-token-with-its-left-priority-within-the-limit] result1 == nil ==>
+//@       called(a) && aerr == nil && !emptyOp(result0) &&
+//@       ((result0 == p.operators[a][operatorClassInfix] && called(il) && il <= maxPriority) ||
+//@        (result0 == p.operators[a][operatorClassPostfix] && called(pl) && pl <= maxPriority))
+//@   -- (the same without names internal to infix, for callers)
+//@   ensures[an-operator-delivered-is-an-entry-of-the-infix-or-the-postfix-class-of-the-parser-s-table] result1 == nil ==>
+//@       !emptyOp(result0) && exists n Atom :: result0 == p.operators[n][operatorClassInfix] || result0 == p.operators[n][operatorClassPostfix]
+//@   ensures[no-operator-comes-with-an-error] result1 != nil ==> emptyOp(result0)
+//@   at-call (*Parser).backup#1 requires[the-token-is-given-up-only-when-the-table-holds-neither-a-suitable-infix-nor-a-suitable-postfix-operator-for-it] called(a) && aerr == nil &&
+//@       (emptyOp(p.operators[a][operatorClassInfix]) || (called(il) && il > maxPriority)) &&
+//@       (emptyOp(p.operators[a][operatorClassPostfix]) || (called(pl) && pl > maxPriority))
+
+//@ -- the operator-precedence loop: operands are read up to the priorities the ISO table gives for the operator the table delivered,
+//@ -- and the term built has that operator's name as its functor
+//@ func (*Parser).term
+//@   property C18
+//@   requires p != nil
+//@   nosafety
+//@   modifies heap
+//@   checks only at-call at-call-missing
+//@   loop 1 invariant true
+//@   bind fop, ferr = (*Parser).prefix#1
+//@   bind fl, fr = (*operator).bindingPriorities#1
+//@   bind iop, ierr = (*Parser).infix#1
+//@   bind nl, nr = (*operator).bindingPriorities#2
+//@   bind operand, operr = (*Parser).term#1
+//@   bind rhs, rerr = (*Parser).term#2
+//@   at-call (*Parser).prefix requires[a-prefix-operator-is-looked-for-by-this-parser-within-the-priority-asked-for] a0 == p && a1 == maxPriority
+//@   at-call (*Parser).infix requires[an-infix-or-postfix-operator-is-looked-for-by-this-parser-within-the-priority-asked-for] a0 == p && a1 == maxPriority
+//@   at-call (*operator).bindingPriorities#1 requires[the-priorities-of-the-prefix-operator-the-table-delivered] called(fop) && ferr == nil && *a0 == fop
+//@   at-call (*Parser).term#1 requires[the-operand-of-a-prefix-operator-is-read-up-to-the-operator-s-right-priority] a0 == p && called(fr) && a1 == fr
+//@   at-call Atom.Apply#1 requires[a-prefix-operator-s-name-is-applied-to-its-operand] called(fop) && a0 == fop.name && called(operand) && operr == nil && len(a1) == 1 && a1[0] == operand
+//@   at-call (*operator).bindingPriorities#2 requires[the-priorities-of-the-infix-or-postfix-operator-the-table-delivered] called(iop) && ierr == nil && *a0 == iop
+//@   at-call Atom.Apply#2 requires[a-postfix-operator-s-name-is-applied-to-what-was-read-so-far] called(iop) && a0 == iop.name && called(nr) && nr > 1200 && len(a1) == 1 && a1[0] == lhs
+//@   at-call (*Parser).term#2 requires[the-right-operand-of-an-infix-operator-is-read-up-to-the-operator-s-right-priority] a0 == p && called(nr) && a1 == nr
+//@   at-call Atom.Apply#3 requires[an-infix-operator-s-name-is-applied-to-what-was-read-so-far-and-its-right-operand] called(iop) && a0 == iop.name && called(rhs) && rerr == nil &&
+//@       len(a1) == 2 && a1[0] == lhs && a1[1] == rhs
+
+//@ ---------------------------------------------------------------- the writer uses the VM's own table (C18)
+
+//@ -- a write option sets its own field of the options and nothing else: in particular no option replaces the operator table
+//@ func writeTermOption
+//@   property C18
+//@   requires opts != nil
+//@   nosafety
+//@   modifies opts.quoted, opts.ignoreOps, opts.numberVars, opts.variableNames, opts.maxDepth
+
+//@ -- the interface method through which every kind of term is written: named so that the options handed to it can be pinned where
+//@ -- it is called. Nothing is claimed about it (any result, any effect), so `trusted` - the form in which an interface method, which
+//@ -- has no body, is declared (cf. Term.Compare) - assumes nothing here
+//@ func Term.WriteTerm
+//@   trusted
+//@   modifies heap
+
+//@ -- variable_names(L): builds a new map; touches nothing that existed
+//@ func writeTermOptionVariableNames
+//@   property C18
+//@   nosafety
+//@   modifies nothing
+//@   loop 1 invariant[the-names-are-collected-in-a-map-of-this-call] vns != nil && fresh(vns)
+
+//@ -- the options a compound's arguments are written with: a copy that keeps the operator table (and everything but the visited set)
+//@ func WriteOptions.withVisited
+//@   property C18
+//@   nosafety
+//@   modifies nothing
+//@   loop 1 invariant true
+//@   ensures[a-new-copy] result != nil && fresh(result)
+//@   ensures[the-copy-keeps-the-operator-table] result.ops == o.ops
+//@   ensures[the-copy-keeps-the-other-options] result.ignoreOps == o.ignoreOps && result.quoted == o.quoted && result.numberVars == o.numberVars && result.variableNames == o.variableNames &&
+//@       result.priority == o.priority && result.left == o.left && result.right == o.right && result.maxDepth == o.maxDepth
+
+//@ -- whether an atom standing as an operand is an operator (and is therefore bracketed) is decided by the table of the options given
+//@ func Atom.WriteTerm
+//@   property C18
+//@   nosafety
+//@   modifies heap
+//@   checks only at-call at-call-missing
+//@   at-call (*operators).defined requires[an-atom-is-bracketed-as-an-operator-according-to-the-operator-table-of-the-options-given] a0 == &opts.ops && a1 == a
+
+//@ -- an atom as an argument: whether it is an operator standing for itself is decided by the parser's own table
+//@ func (*Parser).arg
+//@   property C18
+//@   requires p != nil
+//@   nosafety
+//@   modifies heap
+//@   checks only at-call at-call-missing
+//@   bind at, aterr = (*Parser).atom#1
+//@   at-call (*operators).defined requires[an-atom-argument-is-an-operator-according-to-the-parser-s-own-table] a0 == &p.operators && called(at) && aterr == nil && a1 == at
+//@   at-call (*Parser).term requires[an-argument-is-a-term-of-priority-999-read-by-this-parser] a0 == p && a1 == 999
+
+//@ -- named so that its result can be bound in arg; nothing is claimed about it (any result, any effect)
+//@ func (*Parser).atom
+//@   property C18
+//@   requires p != nil
+//@   nosafety
+//@   modifies heap
